@@ -209,6 +209,29 @@ func alphabet() []shape {
 	add("LIST-of-map", ref.WList, listN(1, func(i int) *ref.Node { return ref.NMap(0, ref.NInt(0, 1), ref.NStr(1, []byte("v"))) }))
 	add("LIST-of-bytes", ref.WList, listN(2, func(i int) *ref.Node { return ref.NBytes(0, []byte{0x0b, 0x0a}) }))
 	add("LIST-of-double", ref.WList, listN(2, func(i int) *ref.Node { return ref.NDouble(0, 0x3ff0000000000000) }))
+	// many containers in one skipped field (a per-reader count of skipped containers would run away)
+	add("LIST-600-structs", ref.WList, listN(600, func(i int) *ref.Node { return ref.NStruct(0, ref.NInt(0, int64(i))) }))
+	add("LIST-520-lists", ref.WList, listN(520, func(i int) *ref.Node { return ref.NList(0, ref.NInt(0, 1)) }))
+	add("MAP-600-struct-values", ref.WMap, func(t uint8) *ref.Node {
+		var kv []*ref.Node
+		for i := 0; i < 600; i++ {
+			kv = append(kv, ref.NInt(0, int64(i)), ref.NStruct(1, ref.NZero(0)))
+		}
+		return ref.NMap(t, kv...)
+	})
+	// float and double vectors as other implementations write them: a zero element is a bare ZeroTag head
+	add("LIST-float-with-zeros", ref.WList, func(t uint8) *ref.Node {
+		return ref.NList(t, ref.NFloat(0, 0x3f800000), ref.NZero(0), ref.NFloat(0, 0x40000000), ref.NZero(0))
+	})
+	add("LIST-double-with-zeros", ref.WList, func(t uint8) *ref.Node {
+		return ref.NList(t, ref.NDouble(0, 0x3ff0000000000000), ref.NZero(0), ref.NZero(0), ref.NDouble(0, 0x4000000000000000))
+	})
+	add("STRUCT-with-float-list-with-zeros", ref.WStructBegin, func(t uint8) *ref.Node {
+		return ref.NStruct(t, ref.NList(0, ref.NDouble(0, 0x3ff0000000000000), ref.NZero(0)), ref.NInt(1, 7))
+	})
+	add("LIST-int-mixed-widths", ref.WList, func(t uint8) *ref.Node {
+		return ref.NList(t, ref.NIntAs(0, 70000, ref.WInt), ref.NZero(0), ref.NIntAs(0, 1, ref.WByte), ref.NIntAs(0, 300, ref.WShort), ref.NIntAs(0, 1<<40, ref.WLong))
+	})
 	add("LIST-len-as-SHORT", ref.WList, func(t uint8) *ref.Node { return lenAs(ref.NList(t, ref.NInt(0, 5)), 1, ref.WShort) })
 	add("MAP-2-str-str", ref.WMap, func(t uint8) *ref.Node {
 		return ref.NMap(t, ref.NStr(0, []byte("a")), ref.NStr(1, []byte("1")), ref.NStr(0, []byte("b")), ref.NStr(1, []byte("2")))
